@@ -237,7 +237,9 @@ def setVar (r : Runner) (h : Heap) (name : Bytes) (vr : Var) : Option Heap :=
   let vr := if r.opts.head?.getD false then { vr with exported := true } else vr
   (envSet r.base (fuelOf h.scopes) h.scopes r.env name vr).map fun sc => { h with scopes := sc }
 
-def delVar (r : Runner) (h : Heap) (name : Bytes) : Option Heap := setVar r h name {}
+/-- `Runner.delVar`: straight to `writeEnv.Set` (allexport does not apply). -/
+def delVar (r : Runner) (h : Heap) (name : Bytes) : Option Heap :=
+  (envSet r.base (fuelOf h.scopes) h.scopes r.env name {}).map fun sc => { h with scopes := sc }
 
 def setVarString (r : Runner) (h : Heap) (name val : Bytes) : Option Heap :=
   setVar r h name { set := true, kind := .string, str := val }
@@ -537,7 +539,8 @@ def step (fx : Bool) (g : Grows) (h : Heap) (r : Runner) : Op ‚Üí Option (Heap √
           else some (h, r)
         | none => some (h, r)
   | .readArr name vals =>
-    let (s, l) := sliceMake h.strs vals vals.length
+    -- `expand.ReadFields` returns nil for a line without fields, else `make([]string, n)`
+    let (s, l) := if vals.isEmpty then (h.strs, Slice.nil) else sliceMake h.strs vals vals.length
     (setVar r { h with strs := s } name { set := true, kind := .indexed, list := l }).map fun h => (h, r)
   | .setStr name val => (setVarString r h name val).map fun h => (h, r)
   | .mapfile name vals =>
@@ -609,17 +612,17 @@ def subshell (g : Grows) (h : Heap) (r : Runner) (bg : Bool) : Option (Heap √ó R
   let (am, als) := mapClone h.amaps r.alias
   -- r2.dirStack = append(r2.dirBootstrap[:0], r.dirStack...)
   let (s, boot) := sliceMake h.strs [] 1
-  let (s, ds) := sliceAppendList g.strs s { boot with len := 0 } (cells h.strs r.dirStack)
+  let (s, ds) := sliceAppendMany g.strs s { boot with len := 0 } (cells h.strs r.dirStack)
   pure ({ h with scopes := sc, fmaps := fm, amaps := am, strs := s },
         { base := r.base, env := env, dir := r.dir, params := r.params, opts := r.opts,
           funcs := funcs, alias := als, dirStack := ds, inFunc := false, frames := [] })
 
 /-! ### Initial state (`New` + `Reset`) -/
 
-def initState (base : List (Bytes √ó Bytes)) (dir : Bytes) (nopts : Nat) : Option (Heap √ó Runner) := do
+def initState (base : List (Bytes √ó Bytes)) (dir : Bytes) (opts : List Bool) : Option (Heap √ó Runner) := do
   let h : Heap := { scopes := [{ parent := .base }] }
   let (s, boot) := sliceMake h.strs [] 1
-  let r : Runner := { base := base, env := 0, dir := dir, opts := List.replicate nopts false,
+  let r : Runner := { base := base, env := 0, dir := dir, opts := opts,
                       dirStack := { boot with len := 0 } }
   let h := { h with strs := s }
   let h ‚Üê setVarString r h (bytesOfString "PWD") dir
